@@ -38,6 +38,7 @@ type rec struct {
 	delivered int // NewStreamDetect calls
 	writes    int // netConn.Write calls (heartbeat acks)
 	closed    bool
+	stuck     bool
 }
 
 type wrapCodec struct {
@@ -62,6 +63,11 @@ func (p *wrapProto) Decode(ctx context.Context, data api.IoBuffer) (interface{},
 	} else if f != nil {
 		p.r.frames = append(p.r.frames, framegen.RawOf(ctx, f))
 		p.r.drained = append(p.r.drained, before-data.Len())
+		if before == data.Len() {
+			// a frame that drained nothing: Dispatch would decode it again forever. Stop here and report a failure.
+			p.r.stuck = true
+			panic("verif: frame produced without draining")
+		}
 	}
 	return f, err
 }
@@ -119,7 +125,9 @@ func (c *conn) feed(chunk []byte) {
 		return
 	}
 	c.buf.Write(chunk)
-	c.sc.Dispatch(c.buf)
+	if _, p := hx.Safe(func() { c.sc.Dispatch(c.buf) }); p {
+		c.r.errs++ // a panic in Dispatch is recovered by the read loop, which closes the connection
+	}
 }
 
 func hexList(l [][]byte) string {
@@ -236,8 +244,11 @@ func buildStream(c *hx.Ctx, proto string, small bool, maxLen int) *streamCase {
 		s := &streamCase{proto: proto}
 		for i := 0; i < n; i++ {
 			f := framegen.Gen(c.Rng, proto, small)
-			if !framegen.Valid(f) {
-				c.Count("gen.rejected-by-real-decoder." + proto)
+			// frames are valid by construction (built from the wire layout, TarsGo's own writer, hessian2's encoder);
+			// they are NOT filtered through the decoder under test, with one exception: tars packages of 256 bytes
+			// and more, which the pinned tars decoder refuses (DESIGN.md section 6 row 1, property C01).
+			if f.Proto == "tars" && len(f.Bytes) >= 256 && !framegen.Valid(f) {
+				c.Count("gen.tars>=256-refused(C01 row 1)")
 				continue
 			}
 			if len(s.stream)+len(f.Bytes) > maxLen {
@@ -252,7 +263,7 @@ func buildStream(c *hx.Ctx, proto string, small bool, maxLen int) *streamCase {
 		}
 		if c.Rng.Chance(35) { // incomplete tail: a proper prefix of a further valid frame
 			f := framegen.Gen(c.Rng, proto, small)
-			if framegen.Valid(f) && len(f.Bytes) > 1 {
+			if len(f.Bytes) > 1 {
 				k := 1 + c.Rng.Intn(len(f.Bytes)-1)
 				if len(s.stream)+k <= maxLen {
 					s.stream = append(s.stream, f.Bytes[:k]...)
